@@ -2,7 +2,7 @@
    `run true` is the access order of the code after the fix: commits (tied to the code by the
    controlled-scheduler correspondence check); `run false` is the order of the pinned tree. *)
 From ZV.Common Require Import Base.
-From ZV.C16 Require Import Model ModelSeq ProofsBase ProofsInv ProofsStep ProofsMain ProofsRefute ProofsSeq ProofsSolo.
+From ZV.C16 Require Import Model ModelSeq ModelLazy ModelSpec ProofsBase ProofsInv ProofsStep ProofsMain ProofsRefute ProofsSeq ProofsSolo ProofsLazy ProofsSpec ProofsRefine ProofsLive.
 Open Scope N_scope.
 
 (* (i) one-writer-many-readers: for any number of threads, any programs, any schedule, at most one
@@ -243,3 +243,223 @@ Example seq_nontrivial :
   Forall wf_sop cross_hist /\ handed_writers (srun_ops true cross_hist sinit) 1 = 1
   /\ Forall wf_sop dangling_cache_hist.
 Proof. vm_compute. repeat split; repeat constructor; discriminate. Qed.
+
+(* ---- the lazy free list: bulk processing rule, age order, every interleaving (ModelLazy.v, ProofsLazy.v) ---- *)
+(* LazyFreeList::process_safe_items with any bulk threshold (the loop as written): what it frees is a prefix of the
+   queue (oldest first, nothing lost), every freed age is below min_version, at most max(1, threshold) items per call,
+   it stops only at the end of the queue, at an item that may still be seen, or at the limit, and it frees at least one
+   item when the oldest one is safe (so repeated calls drain the queue) *)
+Theorem process_safe_items_spec :
+  forall thr m l,
+    let freed := fst (process_safe thr m l) in
+    let rest := snd (process_safe thr m l) in
+    freed ++ rest = l /\
+    (forall a, In a freed -> a < m) /\
+    nlen freed <= N.max 1 thr /\
+    (rest = [] \/ (exists b r, rest = b :: r /\ m <= b) \/ (freed <> [] /\ thr <= nlen freed)) /\
+    (forall a r, l = a :: r -> a < m -> freed <> []).
+Proof. exact process_safe_items_spec_proof. Qed.
+Check process_safe_items_spec :
+  forall thr m l,
+    let freed := fst (process_safe thr m l) in
+    let rest := snd (process_safe thr m l) in
+    freed ++ rest = l /\
+    (forall a, In a freed -> a < m) /\
+    nlen freed <= N.max 1 thr /\
+    (rest = [] \/ (exists b r, rest = b :: r /\ m <= b) \/ (freed <> [] /\ thr <= nlen freed)) /\
+    (forall a r, l = a :: r -> a < m -> freed <> []).
+Print Assumptions process_safe_items_spec.
+
+(* in every reachable state (either access order, any threshold) the queue is in age order and no item is newer than
+   current_version: `break` at the first item that cannot be freed loses nothing *)
+Theorem queue_in_age_order :
+  forall fx level b progs sched,
+    let st := run fx sched (initb level b progs) in
+    sorted_le (lazy (sh st)) /\ Forall (fun a => a <= cur (sh st)) (lazy (sh st)).
+Proof. exact queue_in_age_order_proof. Qed.
+Check queue_in_age_order :
+  forall fx level b progs sched,
+    let st := run fx sched (initb level b progs) in
+    sorted_le (lazy (sh st)) /\ Forall (fun a => a <= cur (sh st)) (lazy (sh st)).
+Print Assumptions queue_in_age_order.
+
+(* (ii) for every bulk threshold: whatever process_safe_items(min_version) would free in a reachable state was retired
+   strictly before the version of every live token *)
+Theorem bulk_reclaim_safe :
+  forall level b progs sched a t,
+    let st := run true sched (initb level b progs) in
+    In a (fst (process_safe (bulk (sh st)) (minv (sh st)) (lazy (sh st)))) ->
+    In t (live st) -> tracked t -> a < tv t.
+Proof. exact bulk_reclaim_safe_proof. Qed.
+Check bulk_reclaim_safe :
+  forall level b progs sched a t,
+    let st := run true sched (initb level b progs) in
+    In a (fst (process_safe (bulk (sh st)) (minv (sh st)) (lazy (sh st)))) ->
+    In t (live st) -> tracked t -> a < tv t.
+Print Assumptions bulk_reclaim_safe.
+
+(* (ii) every interleaving of retire / acquire / release / with_*_token / hand-over / (gated) bulk processing: an item
+   that leaves the queue in a step of any thread is older than every token that is live when the step is taken ... *)
+Theorem handed_back_safe :
+  forall level b progs sched tid a t,
+    let st := run true sched (initb level b progs) in
+    In a (handed_back (sh st) (sh (step true st tid))) ->
+    In t (live st) -> tracked t -> a < tv t.
+Proof. exact handed_back_safe_proof. Qed.
+Check handed_back_safe :
+  forall level b progs sched tid a t,
+    let st := run true sched (initb level b progs) in
+    In a (handed_back (sh st) (sh (step true st tid))) ->
+    In t (live st) -> tracked t -> a < tv t.
+Print Assumptions handed_back_safe.
+
+(* ... and than every token that is live after it *)
+Theorem handed_back_safe_after :
+  forall level b progs sched tid a t,
+    let st := run true sched (initb level b progs) in
+    let st' := step true st tid in
+    In a (handed_back (sh st) (sh st')) ->
+    In t (live st') -> tracked t -> a < tv t.
+Proof. exact handed_back_safe_after_proof. Qed.
+Check handed_back_safe_after :
+  forall level b progs sched tid a t,
+    let st := run true sched (initb level b progs) in
+    let st' := step true st tid in
+    In a (handed_back (sh st) (sh st')) ->
+    In t (live st') -> tracked t -> a < tv t.
+Print Assumptions handed_back_safe_after.
+
+(* with the default threshold (LazyFreeList::new) the loop is the 32-item prefix scan of the first theorems *)
+Theorem process_safe_default_is_take_safe :
+  forall m l, process_safe BULK_FREE_N m l = take_safe BULK_FREE_NUM m l.
+Proof. exact process_safe_default_proof. Qed.
+Check process_safe_default_is_take_safe :
+  forall m l, process_safe BULK_FREE_N m l = take_safe BULK_FREE_NUM m l.
+Print Assumptions process_safe_default_is_take_safe.
+
+(* ---- refinement to the abstract specification (ModelSpec.v, ProofsSpec.v, ProofsRefine.v) ---- *)
+(* the abstract specification (ModelSpec.v: multiset of live reader versions, multiset of live writer versions, threshold;
+   steps acquire / release / advance) keeps: at most one writer in OneWriteMultiRead, threshold <= every live version *)
+Theorem spec_invariants :
+  forall level a, areach level a -> ainv level a.
+Proof. exact areach_ainv. Qed.
+Check spec_invariants :
+  forall level a, areach level a -> ainv level a.
+Print Assumptions spec_invariants.
+
+(* REFINEMENT: in every reachable state of the interleaving semantics (fixed access order, any programs over the extended
+   alphabet, any threshold, any schedule) every step of every thread is the step of the specification named by `label_of`:
+   a token comes into existence at the fetch_add of current_version (or as the (1,1) token of a single-threaded level) and
+   ceases to exist at the decrement of its counter; the store in try_advance_min_version is an `advance`; everything else
+   - cache traffic, with_*_token, hand-over between threads, retire / reclaim - is invisible *)
+Theorem step_refines :
+  forall level b progs sched tid,
+    let st := run true sched (initb level b progs) in
+    astep level (abs st) (label_of st tid) (abs (step true st tid)).
+Proof. exact step_refines_run_proof. Qed.
+Check step_refines :
+  forall level b progs sched tid,
+    let st := run true sched (initb level b progs) in
+    astep level (abs st) (label_of st tid) (abs (step true st tid)).
+Print Assumptions step_refines.
+
+(* ... hence the abstraction of every reachable state is a reachable state of the specification *)
+Theorem run_refines :
+  forall level b progs sched, areach level (abs (run true sched (initb level b progs))).
+Proof. exact run_refines_proof. Qed.
+Check run_refines :
+  forall level b progs sched, areach level (abs (run true sched (initb level b progs))).
+Print Assumptions run_refines.
+
+(* the clauses of the property as corollaries of the specification's invariants: (i) the live writer tokens are among the
+   specification's writers, at most one at level 3; (ii) every live token's version is in the specification's multisets, all
+   of which are >= the threshold = min_version; (iii) when no operation is in flight the counters are the sizes of the
+   specification's multisets *)
+Theorem property_from_spec :
+  forall level b progs sched,
+    let st := run true sched (initb level b progs) in
+    ainv level (abs st) /\
+    (level = 3 -> count_kind KW (live st) <= nlen (a_wr (abs st)) <= 1) /\
+    (forall t, In t (live st) -> tracked t ->
+       In (tv t) (a_rd (abs st) ++ a_wr (abs st)) /\ a_lo (abs st) = minv (sh st) /\ minv (sh st) <= tv t) /\
+    (quiescent st -> ar (sh st) = nlen (a_rd (abs st)) /\ aw (sh st) = nlen (a_wr (abs st))).
+Proof. exact property_from_spec_proof. Qed.
+Check property_from_spec :
+  forall level b progs sched,
+    let st := run true sched (initb level b progs) in
+    ainv level (abs st) /\
+    (level = 3 -> count_kind KW (live st) <= nlen (a_wr (abs st)) <= 1) /\
+    (forall t, In t (live st) -> tracked t ->
+       In (tv t) (a_rd (abs st) ++ a_wr (abs st)) /\ a_lo (abs st) = minv (sh st) /\ minv (sh st) <= tv t) /\
+    (quiescent st -> ar (sh st) = nlen (a_rd (abs st)) /\ aw (sh st) = nlen (a_wr (abs st))).
+Print Assumptions property_from_spec.
+
+(* ---- the mutex (ProofsLive.v) ---- *)
+(* no interleaving of the modelled operations deadlocks: in every reachable state, as long as some thread has not finished,
+   some thread can take a step (token_chain_mutex is always held by a thread inside the critical section, and such a thread
+   is never blocked) *)
+Theorem deadlock_free :
+  forall level b progs sched,
+    let st := run true sched (initb level b progs) in
+    (exists i th, nth_error (ths st) i = Some th /\ ~ (tpc th = Idle /\ cur_op th = None)) ->
+    exists tid th s' th', nth_error (ths st) tid = Some th /\ tstep true tid (sh st) th = Some (s', th').
+Proof. exact deadlock_free_proof. Qed.
+Check deadlock_free :
+  forall level b progs sched,
+    let st := run true sched (initb level b progs) in
+    (exists i th, nth_error (ths st) i = Some th /\ ~ (tpc th = Idle /\ cur_op th = None)) ->
+    exists tid th s' th', nth_error (ths st) tid = Some th /\ tstep true tid (sh st) th = Some (s', th').
+Print Assumptions deadlock_free.
+
+(* ... and the mutex is free whenever no thread is inside an operation *)
+Theorem mutex_free_at_quiescence :
+  forall level b progs sched,
+    let st := run true sched (initb level b progs) in
+    quiescent st -> lck (sh st) = None.
+Proof. exact mutex_free_at_quiescence_proof. Qed.
+Check mutex_free_at_quiescence :
+  forall level b progs sched,
+    let st := run true sched (initb level b progs) in
+    quiescent st -> lck (sh st) = None.
+Print Assumptions mutex_free_at_quiescence.
+
+(* ---- two more consequences ---- *)
+(* (iii) also while closures of with_*_token own their tokens: whenever every thread is between operations or inside such a
+   closure, the counters equal the numbers of live tokens *)
+Theorem counters_exact_at_rest :
+  forall level b progs sched,
+    let st := run true sched (initb level b progs) in
+    at_rest st ->
+    ar (sh st) = count_kind KR (live st) /\ aw (sh st) = count_kind KW (live st).
+Proof. exact counters_exact_at_rest_proof. Qed.
+Check counters_exact_at_rest :
+  forall level b progs sched,
+    let st := run true sched (initb level b progs) in
+    at_rest st ->
+    ar (sh st) = count_kind KR (live st) /\ aw (sh st) = count_kind KW (live st).
+Print Assumptions counters_exact_at_rest.
+
+(* repeated process_safe_items with a min_version above every queued age empties the queue within len() calls, for every
+   threshold (0 included) *)
+Theorem drain_empties :
+  forall n thr m l, Forall (fun a => a < m) l -> (length l <= n)%nat -> drain_n n thr m l = [].
+Proof. exact drain_empties_proof. Qed.
+Check drain_empties :
+  forall n thr m l, Forall (fun a => a < m) l -> (length l <= n)%nat -> drain_n n thr m l = [].
+Print Assumptions drain_empties.
+
+(* (iii) at every instant (what the oracle checks after every step): held <= counter <= held + threads in the middle of an
+   acquire or a release *)
+Theorem counters_bounded_always :
+  forall level b progs sched,
+    let st := run true sched (initb level b progs) in
+    count_kind KR (live st) <= ar (sh st) <= count_kind KR (live st) + nlen (filter busy (ths st)) /\
+    count_kind KW (live st) <= aw (sh st) <= count_kind KW (live st) + nlen (filter busy (ths st)).
+Proof. exact counters_bounded_always_proof. Qed.
+Check counters_bounded_always :
+  forall level b progs sched,
+    let st := run true sched (initb level b progs) in
+    count_kind KR (live st) <= ar (sh st) <= count_kind KR (live st) + nlen (filter busy (ths st)) /\
+    count_kind KW (live st) <= aw (sh st) <= count_kind KW (live st) + nlen (filter busy (ths st)).
+Print Assumptions counters_bounded_always.
+
